@@ -274,6 +274,8 @@ def applyAlleleFilter (r : RecordM) (field : String) (op : Cmp) (v : Rat) : Exce
       match f.values with
       | none => .ok (List.replicate (1 + r.nAlts) true)
       | some obs =>
+        -- a record without ALT has nothing to filter on an A-length field (its value is the missing value)
+        if r.nAlts = 0 then .ok (List.replicate (1 + r.nAlts) true) else
         if obs.length = r.nAlts then
           match cmpAll op v obs with
           | .ok bs => .ok (true :: bs)
